@@ -41,6 +41,8 @@ class NDesc(object):
         self.susp = []
         self.self_model = False   # the machine is its own model (the library's default `model='self'`)
         self.evnames = []         # [[ev, name]]: events not called 'e<ev>' (e.g. an event named 'final')
+        self.locked = False       # LockedHierarchicalMachine (sync only)
+        self.features = []        # state feature mixins the machine class is decorated with (`add_state_features`)
         self.bystander = False    # a second machine of the same class is alive (own dynamically registered on_final)
         self.flags = None        # optional list of final-flag placements applied in turn (exhaustive tier)
 
@@ -48,7 +50,8 @@ class NDesc(object):
         return {'nodes': self.nodes, 'roots': self.roots, 'initial': self.initial, 'mcbs': self.mcbs,
                 'trans': self.trans, 'history': [list(h) for h in self.history], 'kind': self.kind,
                 'coro': list(self.coro), 'susp': [list(x) for x in self.susp], 'self_model': self.self_model,
-                'evnames': [list(x) for x in self.evnames], 'bystander': self.bystander}
+                'evnames': [list(x) for x in self.evnames], 'bystander': self.bystander, 'locked': self.locked,
+                'features': list(self.features)}
 
     @staticmethod
     def from_json(j):
@@ -65,6 +68,8 @@ class NDesc(object):
         d.self_model = bool(j.get('self_model', False))
         d.evnames = [list(x) for x in j.get('evnames', [])]
         d.bystander = bool(j.get('bystander', False))
+        d.locked = bool(j.get('locked', False))
+        d.features = list(j.get('features', []))
         return d
 
     # -- names -------------------------------------------------------------------------------
@@ -275,6 +280,13 @@ def gen_desc(rng, kn=None, kind=0):
             if 1 in nd.get('reg', []) and 2 in nd['reg']:
                 nd['reg'] = sorted(0 if r == 1 else r for r in nd['reg'])
     d.bystander = rng.random() < 0.3
+    # the machine class: plain / locked, optionally decorated with state feature mixins (the decorated state class
+    # must keep NestedState's dynamic on_final_<state> registration and model-method convention)
+    d.locked = kind == 0 and rng.random() < 0.2
+    if rng.random() < 0.35:
+        # (Error / Volatile override enter / exit synchronously: sync classes only)
+        d.features = ['Tags'] if kind == 1 else rng.choice([['Tags'], ['Error'], ['Volatile'], ['Tags', 'Volatile'],
+                                                             ['Error', 'Volatile']])
     if rng.random() < (0.6 if d.self_model else 0.15):
         d.evnames = [[rng.randrange(nev), 'final']]
     if kind == 1:
@@ -523,9 +535,11 @@ class NRun(object):
         self.cur = None
         self.log = []
         self._snaps = {}
+        self._cls = None
         self.emb = {}
         self._shared = desc.shared()
         self.is_async = desc.kind == 1
+        self.reg_errors = []
         self.by = self.build_bystander() if desc.bystander else None
         methods = self.model_methods()
         self.model = None if desc.self_model else type('Model', (_Model,), methods)()
@@ -535,7 +549,7 @@ class NRun(object):
         for i in range(len(desc.nodes)):
             for c, r in zip(desc.nodes[i]['cbs'], desc.reg(i)):
                 if r == 2:
-                    getattr(self.machine, 'on_final_' + desc.full_name(i))(self.final_rec(i, c))
+                    self.register('on_final_' + desc.full_name(i), self.machine, self.final_rec(i, c))
 
 
     # -- recorders ---------------------------------------------------------------------------
@@ -574,6 +588,16 @@ class NRun(object):
     def final_rec(self, i, c):
         return self.rec(lambda: ('final', i, c, self.snap()), cb=c, end=lambda: ('final_end', i, c))
 
+    def register(self, name, machine, recorder):
+        """`machine.on_final_<state>(cb)`: the dynamic registration of NestedState.dynamic_methods; a machine that does
+        not recognise it is recorded (and judged), the run goes on without that callback"""
+        try:
+            getattr(machine, name)(recorder)
+        except Exception as e:          # noqa: BLE001
+            if isinstance(e, common.MachineryError):
+                raise
+            self.reg_errors.append([name, type(e).__name__, str(e)[:100]])
+
     def model_methods(self):
         """model methods named on_final_<state> (picked up by `_add_model_to_state`)"""
         out = {}
@@ -588,7 +612,7 @@ class NRun(object):
         """another machine of the same class in the same process, with states that have no on_final of their own and
         one callback registered dynamically; nothing of it may ever run in the machine under test"""
         by = self.machine_cls()(states=['p', {'name': 'q', 'final': True}, {'name': 'r', 'children': ['s']}], initial='p')
-        by.on_final_q(self.rec(lambda: ('final', -2, 0, self.snap())))
+        self.register('on_final_q', by, self.rec(lambda: ('final', -2, 0, self.snap())))
         return by
 
     def cond(self, value):
@@ -620,6 +644,10 @@ class NRun(object):
                                    end=lambda: ('enter_end', self.who(i)), susp=i % 3)],
               'on_exit': [self.rec(lambda: ('exit', self.who(i)), co=(i % 3 == 0))],
               }
+        if 'Error' in d.features:
+            sd['accepted'] = True          # a dead end that is not accepted would raise MachineError on entry
+        if 'Tags' in d.features and i % 2 == 0:
+            sd['tags'] = ['t%d' % i]
         ctor = [self.final_rec(i, c) for c, r in zip(nd['cbs'], d.reg(i)) if r == 0]
         if ctor:
             sd['on_final'] = ctor          # otherwise the state is created without an on_final argument
@@ -647,10 +675,18 @@ class NRun(object):
         return sd
 
     def machine_cls(self):
+        if self._cls is not None:
+            return self._cls
         if self.is_async:
             from transitions.extensions.asyncio import HierarchicalAsyncMachine as cls
+        elif self.d.locked:
+            from transitions.extensions import LockedHierarchicalMachine as cls
         else:
             from transitions.extensions import HierarchicalMachine as cls
+        if self.d.features:
+            from transitions.extensions import states as st
+            cls = st.add_state_features(*[getattr(st, f) for f in self.d.features])(type('Decorated', (cls,), {}))
+        self._cls = cls
         return cls
 
     def who(self, i):
